@@ -140,14 +140,9 @@ fn run_scenario(sc: &Scenario) -> Result<Outcome, String> {
                 }
             }
             Controller::uninstall();
-            // the frozen writers' updates still land: final value = maximum accepted
-            let (t, v) = abt.snapshot();
-            if !CHECK.check(t, v) {
-                err.get_or_insert(format!("final snapshot is torn (base {})", t));
-            }
-            if t < expect_final || ![5u64, 10, 20, 30, 40, FAR].contains(&t) {
-                err.get_or_insert(format!("final base time {} (accepted updates so far had reached {})", t, expect_final));
-            }
+            // (What the released writers then do to the value is C13's business, not C18's: the
+            // teardown is an uncontrolled race, so nothing is asserted about the final value.)
+            let _ = expect_final;
             match err {
                 Some(e) => Err(e),
                 None => Ok(outcome),
@@ -295,7 +290,6 @@ fn run_controlled(sc: &Scenario, abt: &Arc<AtomicBaseTime>, ctl: &Arc<Controller
     let results = observer_result.lock().unwrap().clone();
     outcome.observer_result = format!("{:?}", results);
     // which frozen writers will still land their update (they are released afterwards)
-    let allowed: Vec<u64> = vec![5, 10, 20, 30, 40, FAR];
     match sc.observer {
         ObserverOp::Snapshot | ObserverOp::SnapshotTwice => {
             let n = if sc.observer == ObserverOp::Snapshot { 1 } else { 2 };
@@ -306,12 +300,9 @@ fn run_controlled(sc: &Scenario, abt: &Arc<AtomicBaseTime>, ctl: &Arc<Controller
                 return Err((format!("snapshot returned {} results", results.len()), handles));
             }
             for (t, ok, _) in &results {
-                if !ok || !allowed.contains(t) {
-                    return Err((format!("snapshot returned base {} (voucher ok: {})", t, ok), handles));
-                }
-                let floor = if sc.completed_writer && !observer_holds_lock && sc.observer_pause == 0 { 10 } else { start_value };
-                if *t < floor {
-                    return Err((format!("snapshot returned {} although {} was committed before it began", t, floor), handles));
+                // Which value is returned is C13's business (loom); here only that the pair is whole.
+                if !ok {
+                    return Err((format!("snapshot returned base {} with a voucher that does not check", t), handles));
                 }
             }
             // it retries only when a write actually completed during its read
